@@ -573,10 +573,32 @@ func (Area) Gen(r *rand.Rand, tier string, emit func(string)) {
 	for i := 0; i < stressSeeds; i++ {
 		emit(fmt.Sprintf("stress gap %d %d", r.Int63n(1<<30), stressMs))
 		emit(fmt.Sprintf("stress close %d %d", r.Int63n(1<<30), stressMs))
+		if i < 3 {
+			emit(fmt.Sprintf("stress claim %d %d", r.Int63n(1<<30), stressMs))
+		}
 		count("stress")
 	}
 	if stressFound.Load() {
 		return // a violating input is in hand; the controlled scenarios add nothing to the verdict
+	}
+	// re-Watch family: for every park point of Close and UpdateDesc of the old watcher (yield points, waiting
+	// for the watcher mutex, waiting for the table mutex) a Watch of the same name + UpdateDesc through the new
+	// watcher + lookups run while the old operation is parked; then everything is released and looked up again.
+	// Watch must fail until Close has returned; a live watcher with an applied description must stay routable.
+	for _, k := range []string{"P", "S"} {
+		setup := "W0.0,U0.0.1.12"
+		re := "W0.1,U1.0.2.13,L1,L3,W0.2,U2.0.3.13,L3"
+		fin := "L1,L3,W0.3,U3.0.4.14,L4,L1"
+		// Close parked at its yield point (old update already applied)
+		emit(k + " " + setup + ";C0;" + re + ";" + fin + " 0000" + "1" + "2222222222222" + "11" + "3333333333")
+		// ... re-Watch attempts before, in the middle of and after the Close
+		emit(k + " " + setup + ";C0;" + re + ";" + fin + " 0000" + "2" + "1" + "222222" + "1" + "2222222" + "3333333333")
+		// old UpdateDesc parked after its closed check (holds the watcher mutex), Close waits for it
+		emit(k + " W0.0,U0.0.1.12,U0.0.5.12;C0;" + re + ";" + fin + " 0000" + "0" + "1" + "2222222222222" + "00" + "2222" + "11" + "3333333333")
+		// another target parked between the two phases of its update (holds the service-table mutex; no-op for the pattern router)
+		emit(k + " W0.0,U0.0.1.12,W1.5,U5.1.6.4;C0;" + re + ";" + fin + ";U5.1.7.4 0000000" + "44" + "1" + "1" + "2222222222222" + "44" + "11" + "3333333333")
+		// Close of the NEW watcher parked while a third Watch + update arrive
+		emit(k + " " + setup + ",C0,W0.1,U1.0.2.13;C1;W0.2,U2.0.3.13,L1,L3;" + fin + " 000000000" + "1" + "2222222222" + "11" + "3333333333")
 	}
 	for _, k := range []string{"P", "S"} {
 		// the D11 schedule: update passes the closed check and parks, Close runs, update resumes, lookup, re-watch
